@@ -626,7 +626,64 @@ func (s *c19QSys) restartCheck() *c19QVerdict {
 		}
 		judge("events", qo, base(idPods), "quota-order")
 	})
+	// (3) pods delivered BEFORE the quota objects (informers are unordered at start-up): the plugin parks a pod whose quota
+	// is not known yet in the default group (OnPodAdd(default, pod)) and, once the quotas are there, moves it with
+	// MigratePod(pod, default, quota) (migrateDefaultQuotaGroupsPod, which iterates a map: every migration order)
+	mc.Permutations(n, func(perm []int) {
+		for _, migr := range [][]int{perm, c19QReversed(perm)} {
+			gqm := c19QNewGQM()
+			for _, o := range perm {
+				gqm.OnPodAdd(extension.DefaultQuotaName, s.pods[o].obj)
+			}
+			for _, i := range ident {
+				if err := gqm.UpdateQuota(s.cfg.quotas[i].obj()); err != nil {
+					panic(err)
+				}
+			}
+			for _, o := range migr {
+				if q := s.pods[o].shape.quota; q != extension.DefaultQuotaName {
+					gqm.MigratePod(s.pods[o].obj, extension.DefaultQuotaName, q)
+				}
+			}
+			v.counts["rebuilds"]++
+			v.counts["rebuilds_pods-before-quotas"]++
+			got := c19QTakeDump(gqm)
+			desc := func() string {
+				var es, ms []string
+				for _, o := range perm {
+					es = append(es, fmt.Sprintf("p%d", s.pods[o].id))
+				}
+				for _, o := range migr {
+					ms = append(ms, fmt.Sprintf("p%d", s.pods[o].id))
+				}
+				return fmt.Sprintf("pods %v parked in the default group before any quota was known, quotas added, pods migrated in order %v", es, ms)
+			}
+			if gs := got.String(); gs != liveS {
+				for _, what := range live.diff(got, s.cfg) {
+					report(fmt.Sprintf("C19|quota|rebuilt-differs|%s|%s|pods-before-quotas", what, podClass),
+						fmt.Sprintf("%s: a fresh manager gives\n%s--- but the scheduler that made the allocations held\n%s(surviving pods: %s)", desc(), gs, liveS, s.podsString()))
+				}
+			} else if bound > 0 {
+				v.counts["equal_dumps_nontrivial"]++
+			}
+			if bound > 0 {
+				v.counts["corollary_checked"]++
+				if bad := s.usedNotCharged(got); len(bad) > 0 {
+					report(fmt.Sprintf("C19|quota|used-considered-free|%s|pods-before-quotas", podClass),
+						fmt.Sprintf("%s: %s (surviving pods: %s)", desc(), strings.Join(bad, "; "), s.podsString()))
+				}
+			}
+		}
+	})
 	return v
+}
+
+func c19QReversed(a []int) []int {
+	out := make([]int, len(a))
+	for i, x := range a {
+		out[len(a)-1-i] = x
+	}
+	return out
 }
 
 // usedNotCharged: the explicit corollary from the plain reference: what the surviving bound pods of a group's subtree
